@@ -342,6 +342,14 @@ func walkW1State(pj *simdjson.ParsedJson, st *w1State) ([]byte, error) {
 		if err != nil {
 			return out, err
 		}
+		// a root whose content is a scalar (a top-level container that was set to null): the Root() iterator holds
+		// exactly that value, advancing past it ends the iteration. (On a container Advance steps into it: Root()
+		// positions its iterator with AdvanceInto.)
+		if t2 != simdjson.TypeNone && t2 != simdjson.TypeObject && t2 != simdjson.TypeArray {
+			if t3 := r.Advance(); t3 != simdjson.TypeNone {
+				return out, fmt.Errorf("W1: the Root() iterator of root %d yields a second value of type %v", n-1, t3)
+			}
+		}
 	}
 	if n == 0 {
 		return out, errors.New("W1: no root element")
